@@ -155,6 +155,14 @@ def main():
             'subsampled-mi': dict(base_args, target_ranking_only='False', mi_stratified_sampling_ratio=0.5),
             'binding-cap': dict(base_args, target_ranking_only='False', combination_number_upper_bound=5),      # which pairs survive the cap must not depend on the process
         }
+        # a user-chosen large mini-batch (100000 rows) on a file of 90000 rows: where the batches are cut must not depend on the pool
+        os.makedirs(os.path.join(wd, 'ds_big'))
+        with open(os.path.join(wd, 'ds_big', 'data.csv'), 'w') as f_:
+            f_.write('g0,g1,label\n')
+            for i_ in range(90000):
+                t_ = rng.randrange(2)
+                f_.write(f'{t_ ^ (rng.random() < (0.1 + 0.3 * i_ / 90000))},{rng.randrange(6)},{t_}\n')      # the signal drifts along the file
+        groups['large-minibatch'] = dict(base_args, data_path='ds_big', minibatch_size=100000)
         if tier != 'quick':
             groups['interactions-cap'] = dict(base_args, interaction_order=2, combination_number_upper_bound=7)
             groups['subfeatures-pairwise'] = dict(base_args, target_ranking_only='False', subfeature_mapping='f1->zz')
@@ -174,6 +182,7 @@ def main():
             sub = os.path.join(wd, out + '_cwd')
             os.makedirs(sub, exist_ok=True)
             os.symlink(os.path.join(wd, 'ds'), os.path.join(sub, 'ds'))
+            os.symlink(os.path.join(wd, 'ds_big'), os.path.join(sub, 'ds_big'))
             rc, err = PC.run_cli(dict(a, num_threads=th, output_folder='out'), sub, hashseed=hs)
             rows = None
             if rc == 0 and os.path.exists(os.path.join(sub, 'out', 'pairwise_ranks.tsv')):
